@@ -13,6 +13,8 @@
           auth handler's atomic steps (EAuthBegin / EClientClose / EAuthDecide / EAnnounce /
           EHandlerReturn), each with the notifications recorded for it (WN). *)
 From Hy Require Import lib.Harness lib.Lin model.C15_Stats model.C15_Sites.
+From Hy Require gen.ParamsC01.
+From Hy Require Import model.C15_FromC01.
 From Coq Require Import ZArith String.
 Local Open Scope N_scope.
 
@@ -86,6 +88,54 @@ Fixpoint world_check (secret : string) (w : world) (l : list wobs) : bool :=
       wresp_eqb r WUnit && notes_eqb (map snd (wnote w e)) ns && world_check secret w' t
   end.
 
+(* ---------- the same end-to-end runs against the COMPOSITION of C01's server model with this object ----------
+   (model/C15_FromC01.v; A = model/C01_ServerAuth.v, S = model/C15_Stats.v.)  The recorded server events are read as
+   actions of C01's labelled transition system - connection number = slot, user number i = the one-byte id string [i]:
+     EAuth i            POST /auth enters ServeHTTP on a new connection, the Authenticator accepts it as user i
+     EAuthBegin i       POST /auth enters ServeHTTP on a new connection (Authenticate pending)
+     EAuthDecide k no   the Authenticator rejects                  (an accepting answer only stores the flag: the
+     EAnnounce k        ... accepts; ServeHTTP runs to its end      model's accepting verdict is placed at the announcement)
+     EAuthAgain k _     a further POST /auth on connection k
+     EHandlerReturn k   handleClient's tail
+   (client-side closes, traffic reports and API requests are not actions of that model).  The sequence must be a run of
+   C01's model, and at every recorded GET /online the listing must be the one the stats object shows after exactly the
+   LogOnlineState calls that run has emitted so far (listing_after) - the function C15_online_listing_after_C01_run is about. *)
+Definition c01_cfg : A.config := A.mkCfg true false 0 0.
+Definition c01_masq : A.request -> A.response := fun _ => A.mkResp 404 [] [].
+Definition c01_areq : A.request :=
+  A.mkReq ParamsC01.method_post ParamsC01.url_host ParamsC01.url_path [] [] 0.
+Definition c01_sid (i : id) : A.str := [A.n2b i].
+Definition c01_enc (s : A.str) : id := match s with [b] => A.b2n b | _ => 0 end.
+
+Definition c01_actions (ids : list id) (e : wevent) : list A.action * list id :=
+  let k := N.of_nat (List.length ids) in
+  match e with
+  | EAuth i => ([A.HttpReq k c01_areq []; A.AuthVerdict k true (c01_sid i) []], ids ++ [i])
+  | EAuthBegin i => ([A.HttpReq k c01_areq []], ids ++ [i])
+  | EAuthDecide slot ok => (if ok then [] else [A.AuthVerdict (N.of_nat slot) false [] []], ids)
+  | EAnnounce slot => ([A.AuthVerdict (N.of_nat slot) true (c01_sid (nth slot ids 0)) []], ids)
+  | EAuthAgain slot _ => ([A.HttpReq (N.of_nat slot) c01_areq []], ids)
+  | EHandlerReturn slot => ([A.ConnClosed (N.of_nat slot)], ids)
+  | _ => ([], ids)
+  end.
+
+Fixpoint c01_world_check (st : A.state) (tr : list A.ev) (ids : list id) (l : list wobs) : bool :=
+  let go e t :=
+    let (acts, ids') := c01_actions ids e in
+    match A.run c01_cfg c01_masq st acts with
+    | Some (st', tr') => c01_world_check st' (tr ++ tr') ids' t
+    | None => false
+    end in
+  match l with
+  | [] => true
+  | WE (EHttp _) (WHttp _ (BOnline m)) :: t =>
+      online_eqb (listing_after c01_enc tr) m && c01_world_check st tr ids t
+  | WE _ WNone :: t => c01_world_check st tr ids t
+  | WE e _ :: t => go e t
+  | WN e _ :: t => go e t
+  | WAlive _ _ :: t => c01_world_check st tr ids t
+  end.
+
 Inductive case :=
 | CSeq (secret : string) (l : list (call * cres))
 | CLin (secret : string) (h : list (event call cres))
@@ -103,7 +153,7 @@ Definition check (c : case) : bool :=
   match c with
   | CSeq secret l => seq_check secret init_state l
   | CLin secret h => lin_check (c15_spec secret) h
-  | CWorld secret l => world_check secret init_world l
+  | CWorld secret l => world_check secret init_world l && c01_world_check A.init [] [] l
   end.
 
 Definition mismatches (l : list case) : list nat := mism_from check 0 l.
